@@ -326,6 +326,9 @@ impl<'p> Interp<'p> {
                         }
                         Ok(V::Unit)
                     }
+                    "contains" | "index" if args[0].contains_nan() || recv.contains_nan() => {
+                        Err(Ctl::Stop(Stop::Unspecified("list search with NaN".into())))
+                    }
                     "contains" => Ok(V::Bool(l.borrow().iter().any(|x| x.lang_eq(&args[0])))),
                     "index" => {
                         let p = l.borrow().iter().position(|x| x.lang_eq(&args[0]));
@@ -484,6 +487,12 @@ impl<'p> Interp<'p> {
                 BinOp::Eq | BinOp::Ne => {
                     let a = self.expr(l)?;
                     let b = self.expr(r)?;
+                    // The documentation defines NaN != NaN for floats only; what
+                    // `==` means for aggregates/lists that contain a NaN (identity
+                    // shortcut or element-wise IEEE) is not specified.
+                    if !l.ty.is_float() && (a.contains_nan() || b.contains_nan()) {
+                        return Err(Ctl::Stop(Stop::Unspecified("aggregate equality with NaN".into())));
+                    }
                     let eq = a.lang_eq(&b);
                     Ok(V::Bool(if *op == BinOp::Eq { eq } else { !eq }))
                 }
